@@ -314,7 +314,7 @@ def _post_shapes(cx, spec):
     import random
     from . import rng as rng_mod
     p = cx.p
-    if not any(p.get(k, 0) > 0 for k in ("p_empty_routing", "p_routing_shorthand", "p_keyword_update_field", "p_struct_fields", "p_mixin_mixed_body", "p_stdlib_file_name", "p_mistyped_max_results", "p_streamed_list", "p_nested_lro_types", "p_mixin_in_service_config")):
+    if not any(p.get(k, 0) > 0 for k in ("p_empty_routing", "p_routing_shorthand", "p_keyword_update_field", "p_struct_fields", "p_mixin_mixed_body", "p_stdlib_file_name", "p_mistyped_max_results", "p_streamed_list", "p_nested_lro_types", "p_mixin_in_service_config", "p_cstream_of_empty")):
         return
     prng = random.Random(int(rng_mod.digest(spec)[:16], 16))
     methods = [(fs, s, m) for fs, s, m in all_methods(spec)]
@@ -423,6 +423,12 @@ def _post_shapes(cx, spec):
                                     "maxBackoff": prng.choice(["1s", "4s", "10s"]), "backoffMultiplier": prng.choice([1.3, 2, 1.5]),
                                     "retryableStatusCodes": prng.sample(ALL_CODES, prng.choice([1, 2, 2, 3]))}
             spec["service_config"].setdefault("methodConfig", []).append(e)
+    if prng.random() < p.get("p_cstream_of_empty", 0):
+        # a client-streaming RPC that answers with google.protobuf.Empty (an upload that only acknowledges)
+        cands = [m for fs, s, m in methods if m.get("client_streaming") and not m.get("server_streaming")
+                 and m["output"] != ".google.protobuf.Empty"]
+        if cands:
+            prng.choice(cands)["output"] = ".google.protobuf.Empty"
     if prng.random() < p.get("p_mixin_mixed_body", 0):
         # a mixin http rule whose bindings do not agree on `body` (one carries "*", another none: its fields travel in the query)
         rules = [r for r in ((spec.get("service_yaml") or {}).get("http") or {}).get("rules", [])
